@@ -400,6 +400,15 @@ def expand_verbatim(repo, d, kind, log):
     if kind == "macro":
         start = it["after_attrs"]
     segs = [(txt, ("src", rel, start))]
+    for sec in d["sections"]:
+        if sec["head"].startswith("rewrite"):
+            ms = ANCH.findall(sec["head"])
+            (frm, _), (to, _) = ms
+            if txt.count(frm.encode()) != 1:
+                raise GenError(f"{rel}::{path}: rewrite anchor `{frm}` matches {txt.count(frm.encode())} times")
+            txt = txt.replace(frm.encode(), to.encode())
+            segs = [(txt, ("tmpl", d["tline"]))]
+            log.append({"rule": "X4:rewrite", "file": rel, "item": path, "line": line_of(data, s0), "before": frm, "after": to})
     return segs, {"file": rel, "path": path, "kind": kind, "line": line_of(data, s0)}
 
 
